@@ -11,15 +11,21 @@ ENTRY = {
         "textpatch": [{"file": "abaco.go", "old": "ticker := time.NewTicker(as.readPeriod)", "new": "ticker := vNewTicker(as.readPeriod)"}],
         "quick": T(16, 120), "thorough": T(16, 900),
         "rule": "part 1: one execution per (request type, argument class / I/O fault, source running or not) and per select alternative, through the real SourceControl "
-                "methods, runLaterIfActive, the real CoreLoop and the real handlers of a scripted two-channel source; part 2: one execution = one complete interleaving "
+                "methods, runLaterIfActive, the real CoreLoop and the real handlers of a scripted two-channel source; every request that has to be refused is also sent twice in a row, "
+                "and every request is also followed by Stop, Start (with the record lengths of the server status, as SourceControl.Start does), an edge trigger and two blocks with pulses; part 2: one execution = one complete interleaving "
                 "(preemption-bounded) of requester thread(s), CoreLoop, producer and optional Stop caller; oracle: every call returns exactly once (no deadlock), error iff "
                 "the arguments are invalid / no source runs / the I/O step fails, the next blocks are still processed and further requests answered, no handler runs while a "
-                "block is being processed (exclusion monitor), no crash; non-trivial (part 2) = at least one preemption",
+                "block is being processed (exclusion monitor), no crash; an invalid request is refused again when repeated; a request answered with an error leaves the STATUS "
+                "content unchanged (server status and every STATUS message sent while it was handled); the run after Stop + Start uses the record lengths of the last "
+                "record-length request answered with success and its triggered records (at least one, else the harness reports itself vacuous) have that shape; non-trivial (part 2) = at least one preemption",
         "assumptions": ["hw/abaco scenario: the real AbacoSource with a scripted packet producer and a clock thread for the reader's ticker (a seam); delay-bounded",
                         "SourceControl built as RunRPCServer does, minus network; the source is attached the way SourceControl.Start does after choosing it by name",
                         "the fire-and-forget mode of SetExperimentStateLabel is excluded (statement)",
                         "StoreRawDataBlock with N <= 0: the statement does not say whether that is an error; only 'no crash, no hang' is required",
-                        "I/O faults produced with a directory or regular file in the way (the sandbox runs as root)"],
+                        "I/O faults produced with a directory or regular file in the way (the sandbox runs as root)",
+                        "an error reply means the request was refused: the ServerStatus a client is told (STATUS messages) must be what it was before the request",
+                        "WriteControl START with a pixel map that does not fit the source is refused with 'map file invalidated' and the map is unloaded (documented reaction): "
+                        "the same START sent again is a START without a map and may succeed; every other refused request must be refused again when repeated"],
         "technique": "stateless model checking of the real goroutines under a controlled scheduler (preemption-bounded DFS over scheduling and select choices) + exhaustive argument-class enumeration",
     },
 }
